@@ -252,6 +252,26 @@ func (fr *Frame) anchor(owner *Frame, k int, a AssertAt, x *ssa.Call) {
 		name = fmt.Sprintf("%s@%d", name, n)
 	}
 	fr.u.addObl(name, "assert", fr.reach, t, a.C.Where, a.C.Src)
+	if len(a.From) > 0 {
+		// proved from the named earlier assertions alone
+		o := fr.u.obls[len(fr.u.obls)-1]
+		var hs []*Term
+		for _, l := range a.From {
+			h, ok := fr.u.labelled[l]
+			if !ok {
+				fr.u.errs = append(fr.u.errs, fmt.Sprintf("%s: assert ... from %s: no earlier assertion with that name on this path (contract.attach)", a.C.Where, l))
+				continue
+			}
+			hs = append(hs, h)
+		}
+		o.Hyps = hs
+	}
+	if a.Label != "" {
+		if fr.u.labelled == nil {
+			fr.u.labelled = map[string]*Term{}
+		}
+		fr.u.labelled[a.Label] = Implies(fr.reach, t)
+	}
 	fr.assume(t)
 }
 
